@@ -131,6 +131,9 @@ type Chain struct {
 	// replica mode (see replicas.go)
 	twins   []*band.BandApp
 	tainted bool
+	slot    int
+	// Reimports counts genesis export/import round trips done on this chain.
+	Reimports int
 }
 
 var (
@@ -213,7 +216,7 @@ func New(cfg Config, slot int) (c *Chain, err error) {
 	}
 	app := build(home)
 	var files [][]byte
-	c = &Chain{App: app, Cfg: cfg, Home: home, byAddr: map[string]*Account{}, Absent: map[int]bool{}}
+	c = &Chain{App: app, Cfg: cfg, Home: home, byAddr: map[string]*Account{}, Absent: map[int]bool{}, slot: slot}
 
 	gs := band.NewDefaultGenesisState(app.AppCodec())
 	cdc := app.AppCodec()
